@@ -259,7 +259,9 @@ fn execute_inner(c: &Cfg, world: &World, scn: &Scenario, planted: Option<&[u8]>)
         }
         Fault::NonUtf8(p) => {
             let mut b = scn.files.get(p).cloned().unwrap_or_default().into_bytes();
-            b.extend_from_slice(&[0xff, 0xfe, b'\n']);
+            // on a line of their own: whether a front end refuses the bytes or decodes them lossily, the
+            // module is no valid source (U+FFFD starts no token), so exit 0 is wrong under either reading
+            b.extend_from_slice(&[b'\n', 0xff, 0xfe, b'\n']);
             std::fs::write(root.join(p), b).expect("scratch");
         }
         Fault::Flip { path, alt } => {
